@@ -108,7 +108,7 @@ CLAIMED = {
             'default name seeding (reproducible on repeated calls, consistent between observables of one chain) and the refusal of under-determined '
             'imports are checked on the implementation.',
             'Lean kernel; standard axioms; scipy lstsq in import_bootstrap and numpy default_rng by contract.', '5 C13'),
-    'C06': ('Lean 4 theorems (Cauchy-Schwarz over replicas => |corr| <= 1, Gram form => PSD, permutation conjugation, trace under orthogonal conjugation, Cholesky inverse identity, error band quadratic form, external covariance J1 S J2^T; on the executable model: symmetric, unit diagonal, element bounded by the number of shared ensembles) + model/impl correspondence of covariance() + statement oracle on the implementation',
+    'C06': ('Lean 4 theorems (Cauchy-Schwarz over replicas => |corr| <= 1, Gram form => PSD, permutation conjugation, trace under orthogonal conjugation, Cholesky inverse identity, error band quadratic form, external covariance J1 S J2^T; on the executable model: symmetric, unit diagonal, element bounded by the number of shared ensembles, and on a common chain the assembled matrix is D (X X^T) D as Mathlib matrices, hence positive semidefinite) + model/impl correspondence of covariance() + statement oracle on the implementation',
             'Proof: the algebraic facts the statement rests on are proved for every matrix size, number of replicas and ensembles: the per-ensemble '
             'normalisation sum_r sqrt(g11 g22) bounds the cross term (entries in [-1,1], unit diagonal), identical configurations give a Gram matrix '
             '(positive semi-definite, also after rescaling by the errors), reordering the list conjugates by the permutation, eigenvalue smoothing with '
